@@ -630,3 +630,45 @@ theorem C04_query_value_any_leaf_partial (sch : Schema) (orc : Oracle) (root : M
           apply lget_congr
           rw [queryStage_frame hqx h3, ← hgo]
           exact applyWrite_congr m1' ma p w (fun q' hq' => hrel.under q' hq') x hx
+
+/-! ## Go map iteration order -/
+
+/-- Where `C04_refines` applies, the order in which the Go runtime iterates `PathParams` and `url.Values`
+    does not matter: for any permutation of the path variables and of the query keys the request is accepted
+    or rejected alike, and the accepted messages have the same populated leaves. -/
+theorem C04_order_independent (sch : Schema) (orc : Oracle) (root : MsgDesc) (bd : Binding) (dec : Dec)
+    (pp pp' : List (Bytes × Bytes)) (q q' : List (Bytes × List Bytes)) (srcs : List Src)
+    (hpp : pp.Perm pp') (hq : q.Perm q')
+    (hs : srcsOf sch root (allCalls sch root bd ⟨pp, q⟩) = some srcs) (hu : Unrelated srcs) :
+    (∀ m m', transcode sch orc root bd dec ⟨pp, q⟩ = .ok m → transcode sch orc root bd dec ⟨pp', q'⟩ = .ok m' →
+        ∀ x, lget m x = lget m' x)
+    ∧ ((∃ m, transcode sch orc root bd dec ⟨pp, q⟩ = .ok m) ↔ (∃ m', transcode sch orc root bd dec ⟨pp', q'⟩ = .ok m')) := by
+  have hperm := allCalls_perm (sch := sch) (root := root) (bd := bd) hpp hq
+  rw [transcode_eq, transcode_eq]
+  cases hb : bodyStage sch root bd dec with
+  | error e => simp
+  | ok m0 =>
+    simp only
+    exact popStage_perm hperm hs hu
+
+/-- OBSERVATION (kernel-checked witness; the property text is silent): with two path variables inside one oneof,
+    one of them reaching its member through a sub-message, acceptance depends on map order. Message
+    O { oneof o { S a = 1; int32 b = 2 } }, S { int32 x = 1 }: order [b=2, a.x=1] is ACCEPTED (walking to a.x
+    `Mutable`s `a`, which silently clears `b`; only the last field of a path is checked for "oneof already set"),
+    order [a.x=1, b=2] is REJECTED (InvalidArgument). Either way the request binds two members of one oneof. -/
+theorem C04_oneof_order_dependent_witness :
+    transcode exSchemaO exNoOracle exO ⟨[]⟩ .none ⟨[([98], [50]), ([97, 46, 120], [49])], []⟩
+      = .ok [([[97], [120]], .single (.int 1)), ([[97]], .present)]
+    ∧ transcode exSchemaO exNoOracle exO ⟨[]⟩ .none ⟨[([97, 46, 120], [49]), ([98], [50])], []⟩ = .error .invalidArgument := by
+  decide
+
+/-- KNOWN FINDING D4d (negative witness): two query keys that name the same field — its proto name and its
+    JSON name — are both applied, in Go map iteration order, so the ACCEPTED message differs from run to run:
+    J { int32 a_b = 1 [json_name="aB"] }, `?a_b=1&aB=2` gives a_b = 2 in one order and a_b = 1 in the other.
+    (`Unrelated` fails for this request, which is why `C04_order_independent` does not apply.) -/
+theorem C04_query_spelling_order_dependent_fails :
+    transcode exSchemaJ exNoOracle exJ ⟨[]⟩ .none ⟨[], [([97, 95, 98], [[49]]), ([97, 66], [[50]])]⟩
+      = .ok [([[97, 95, 98]], .single (.int 2))]
+    ∧ transcode exSchemaJ exNoOracle exJ ⟨[]⟩ .none ⟨[], [([97, 66], [[50]]), ([97, 95, 98], [[49]])]⟩
+      = .ok [([[97, 95, 98]], .single (.int 1))] := by
+  decide
